@@ -5,7 +5,7 @@
 // with the C09 tree model and OS-layer stubs.
 #include "../C09/jit_env.h"
 #include <asmjit/core.h>
-#include "../../../repo/asmjit/core/jitruntime.cpp"
+#include <asmjit/core/jitruntime.cpp>
 using namespace asmjit;
 using namespace jenv;
 
